@@ -114,7 +114,7 @@ def checkSelection (S : Schema) (H : SpreadHandler) (seen : List Name) (vars : O
            (match directFields ft with
             | none => [(ErrKind.SelectionOnInvalidType, namePos)]
             | some ffields => checkSelections S H seen vars ft ffields ss)
-         | none => [])
+         | none => if (directFields ft).isSome then [(ErrKind.MustSpecifySelectionSet, namePos)] else [])
   | .spread name namePos dirs pos =>
     checkDirectives S vars dirs "FRAGMENT_SPREAD" ++ H seen vars root name namePos pos
   | .inline cond dirs ss pos =>
